@@ -9,6 +9,9 @@ import (
 	"go.brendoncarroll.net/p2p"
 )
 
+// collectorTTL is how long an incomplete message is kept, waiting for its missing parts.
+const collectorTTL = time.Minute
+
 type collector struct {
 	partCount int
 	createdAt time.Time
@@ -21,6 +24,7 @@ type collector struct {
 func newCollector(partCount, totalSize int, now time.Time) *collector {
 	return &collector{
 		partCount: partCount,
+		createdAt: now,
 
 		buf:    make([]byte, totalSize),
 		bitMap: newBitMap(partCount),
@@ -78,6 +82,7 @@ type fragLayer struct {
 func newFragLayer() *fragLayer {
 	ctx, cf := context.WithCancel(context.Background())
 	fl := &fragLayer{
+		ttl:        collectorTTL,
 		cf:         cf,
 		collectors: make(map[collectorID]*collector),
 	}
